@@ -195,4 +195,6 @@ def run(ctx):
                 rep.ob('R11.5', '%s::deserialize: OPRF element passed the identity test' % nm, bool(idt), '', where_of(d), sn)
     ns = len(ctx.suite_names)
     rep.floor('R11.3', 'filters established', n_filters, 4 * ns)
+    from rules import profile
+    profile.check(ctx, rep, 'R11.P', ['opaque_ke::keypair::PublicKey::<KG>::deserialize', '<opaque_ke::keypair::PrivateKey<KG> as opaque_ke::keypair::SecretKey<KG>>::deserialize'])
     return rep
